@@ -5,7 +5,7 @@ E2 = "E2-mirsym"
 ENGINES = [
     {"name": E1, "path": "/verif/lib/kanirun.py", "serves_properties": ["C05", "C08", "C18", "C19"],
      "kind_free_text": "Kani 0.68 proof harnesses (CBMC 6.11 + CaDiCaL) over hyperdriver's compiled functions; harness sources in /verif/kani, instantiated per concrete size by /verif/props/<id>.py"},
-    {"name": E2, "path": "/verif/mirsym/run.py", "serves_properties": ["C12", "C13", "C17"],
+    {"name": E2, "path": "/verif/mirsym/run.py", "serves_properties": ["C12", "C13", "C17", "C20"],
      "kind_free_text": "path-wise symbolic execution of rustc's MIR (-Zunpretty=mir, regenerated from /repo on every run) with z3 (strings/bit-vectors), cvc5 cross-check, library calls replaced by a contract-level model table, counterexamples replayed through the public API by /verif/native"},
 ]
 NOTES = "see DESIGN.md. exit 0 = all obligations discharged within the stated bounds; exit 1 = VIOLATION (replayed natively); exit 2 = inconclusive (timeout, OOM, unsupported construct, unreproduced counterexample)."
@@ -28,6 +28,8 @@ CLAIMS = {
             "text": "One operation on each generic adapter (TokioIo both directions, Rewind, client/server Stream<IO>, TlsBraid arms) from an arbitrary state: exactly the inner stream's bytes are delivered in order, results pass through unchanged."},
     "C19": {"engine": E1, "design_ref": "DESIGN.md 2/C19", "technique": "bounded model checking of the compiled code (Kani/CBMC), virtual time as solver variable", "note": KANI_NOTE,
             "text": "Per-poll contract of TimeoutFuture under a virtual clock for every schedule of <= 4 polls at arbitrary instants; inner work dropped on resolution."},
+    "C20": {"engine": E2, "design_ref": "DESIGN.md 2/C20", "technique": "symbolic execution of rustc MIR with SMT (z3 strings), counterexamples replayed natively", "note": MIR_NOTE,
+            "text": "handle() decided against a reference predicate for all combinations of version, Host header, URI authority, TLS info and host spellings within the bound: forwarded iff the named host equals the server name ignoring ASCII case and port."},
 }
 
 NOT_APPLICABLE = {
@@ -42,6 +44,5 @@ NOT_APPLICABLE = {
     "C09": "not claimed yet: check under construction",
     "C15": "not claimed yet: same as C02",
     "C16": "not claimed yet: check under construction (MIR engine)",
-    "C20": "not claimed yet: check under construction (MIR engine)",
     "C14": "needs a live Checkout polled after a push and the delayed-drop respawn path; same blockers as C03.",
 }
